@@ -364,7 +364,8 @@ Reconcile(s0, j, e) ==
         nAcct  == IF random /\ e.usage # "" /\ a # b
                   THEN {"C15|acct|" \o j.rule \o (IF Less(b, a) THEN "|over" ELSE "|under")} ELSE {}
     IN  IF lost # {} /\ ~random THEN Bad({"C01"}, s0, j.rule \o "+disappeared")
-        ELSE [j EXCEPT !.st = st2, !.notes = nEvict \cup nOver \cup nAcct]
+        ELSE [j EXCEPT !.st = st2, !.notes = nEvict \cup nOver \cup nAcct,
+                       !.rule = IF lost # {} THEN @ \o "+evicted" ELSE @]
 
 (***************************************************************************)
 (* The judge                                                               *)
